@@ -1,7 +1,7 @@
 //! C10 / C11 over engine S: all schedules (bounded pre-emptions) of two or three real tower
 //! operations from prepared states; linearizability oracle, deadlock / panic / poison detection.
 
-use std::collections::{BTreeSet, VecDeque};
+use std::collections::BTreeSet;
 use std::panic::{catch_unwind, AssertUnwindSafe};
 use std::sync::{Arc, Mutex as StdMutex};
 use std::time::{Duration, Instant};
@@ -9,7 +9,7 @@ use std::time::{Duration, Instant};
 use serde_json::json;
 
 use crate::report::{Run, Tier};
-use crate::sched::{children, run_threads, setup_hooks, Sched};
+use crate::sched::{run_threads, setup_hooks, Sched};
 use crate::sim::{tx_label, Replacement, TxName};
 use crate::tower::{user_keys, Api, Monitor, TowerCfg};
 use crate::world::{Blob, Ev, MineSel, World};
@@ -382,6 +382,20 @@ pub fn scenarios(tier: Tier) -> Vec<Scenario> {
                 ops: vec![SOp::Poll, SOp::Add { user: 1, disp: 1, blob: Blob::Valid }],
             },
             Scenario {
+                // the penalty was confirmed (by somebody else) in the block that is being disconnected while the
+                // late appointment is handed to the Responder: confirmed-in-that-block must not survive
+                name: "reorg-of-the-penalty-block-vs-triggered-add".into(),
+                cfg,
+                seed: vec![
+                    Ev::Register(1),
+                    Ev::MineP(MineSel::Txs(vec![TxName::D(1)])),
+                    Ev::External(TxName::P(1)),
+                    Ev::MineP(MineSel::Mempool),
+                    Ev::Reorg { depth: 1, how: Replacement::Unconfirm },
+                ],
+                ops: vec![SOp::Poll, SOp::Add { user: 1, disp: 1, blob: Blob::Valid }],
+            },
+            Scenario {
                 name: "purge-at-expiry-vs-update".into(),
                 cfg: TowerCfg { slots: 3, duration: 1, grace: 0, txindex: false },
                 seed: vec![Ev::Register(1), add(1, 1, Blob::Valid), Ev::Mine(MineSel::Empty)],
@@ -426,6 +440,8 @@ pub struct ScenarioStats {
     pub sequential_outcomes: usize,
     pub max_points: usize,
     pub complete: bool,
+    /// every schedule with at most this many pre-emptions was explored
+    pub bound_completed: usize,
 }
 
 /// Explores every schedule of `sc` with at most `bound` pre-emptions. Violations are reported to
@@ -450,7 +466,11 @@ pub fn explore_scenario(sc: &Scenario, bound: usize, deadline: Instant, run: &Ru
             }
         }
     }
-    let queue: StdMutex<VecDeque<Vec<usize>>> = StdMutex::new(VecDeque::from(vec![vec![]]));
+    // Iterative context bounding: schedules are explored in order of their number of pre-emptions (all with
+    // 0, then all with 1, ...), so when the wall budget is hit the bound completed so far is known exactly.
+    let queue: StdMutex<std::collections::BinaryHeap<std::cmp::Reverse<(usize, u64, Vec<usize>)>>> =
+        StdMutex::new(std::collections::BinaryHeap::from(vec![std::cmp::Reverse((0usize, 0u64, vec![]))]));
+    let pushed = std::sync::atomic::AtomicU64::new(1);
     let in_flight = std::sync::atomic::AtomicUsize::new(0);
     let schedules = std::sync::atomic::AtomicU64::new(0);
     let max_points = std::sync::atomic::AtomicUsize::new(0);
@@ -466,7 +486,7 @@ pub fn explore_scenario(sc: &Scenario, bound: usize, deadline: Instant, run: &Ru
                 }
                 let item = {
                     let mut q = queue.lock().unwrap();
-                    let it = q.pop_back();
+                    let it = q.pop().map(|std::cmp::Reverse((_, _, p))| p);
                     if it.is_some() {
                         in_flight.fetch_add(1, std::sync::atomic::Ordering::SeqCst);
                     }
@@ -549,17 +569,24 @@ pub fn explore_scenario(sc: &Scenario, bound: usize, deadline: Instant, run: &Ru
                         );
                     }
                 }
-                let kids = children(prefix.len(), &ex.points, bound);
+                let kids = crate::sched::children_with_cost(prefix.len(), &ex.points, bound);
                 if ex.diverged.is_none() {
                     let mut q = queue.lock().unwrap();
-                    q.extend(kids);
+                    for (cost, k) in kids {
+                        q.push(std::cmp::Reverse((cost, pushed.fetch_add(1, std::sync::atomic::Ordering::Relaxed), k)));
+                    }
                 }
                 in_flight.fetch_sub(1, std::sync::atomic::Ordering::SeqCst);
             });
         }
     });
     let n_out = outcomes.lock().unwrap().len();
+    let bound_completed = match queue.lock().unwrap().peek() {
+        Some(std::cmp::Reverse((cost, _, _))) => cost.saturating_sub(1),
+        None => bound,
+    };
     ScenarioStats {
+        bound_completed,
         schedules: schedules.load(std::sync::atomic::Ordering::Relaxed),
         distinct_outcomes: n_out,
         sequential_outcomes: seq.len(),
@@ -627,6 +654,7 @@ fn run_s(prop: &'static str, tier: Tier) -> i32 {
     let mut total_out = 0usize;
     let mut detail = Vec::new();
     let mut complete = true;
+    let mut min_bound_completed = bound;
     let n = scs.len();
     for (i, sc) in scs.iter().enumerate() {
         let remaining = total.saturating_sub(started.elapsed());
@@ -635,9 +663,10 @@ fn run_s(prop: &'static str, tier: Tier) -> i32 {
         total_sched += st.schedules;
         total_out += st.distinct_outcomes;
         complete &= st.complete;
+        min_bound_completed = min_bound_completed.min(st.bound_completed);
         detail.push(json!({"scenario": sc.name, "operations": sc.ops.iter().map(|o| format!("{o:?}")).collect::<Vec<_>>(),
             "schedules": st.schedules, "distinct_outcomes": st.distinct_outcomes, "sequential_outcomes": st.sequential_outcomes,
-            "max_scheduling_points": st.max_points, "all_schedules_within_bound_explored": st.complete}));
+            "max_scheduling_points": st.max_points, "all_schedules_within_bound_explored": st.complete, "preemption_bound_completed": st.bound_completed}));
         run.sample(json!({"scenario": sc.name, "seed": sc.seed.iter().map(|e| format!("{e:?}")).collect::<Vec<_>>(), "ops": sc.ops.iter().map(|o| format!("{o:?}")).collect::<Vec<_>>()}));
     }
     // self-check of the engine: one schedule replayed twice must give identical observations
@@ -656,11 +685,12 @@ fn run_s(prop: &'static str, tier: Tier) -> i32 {
     run.add("transitions", total_sched);
     run.set("schedules", json!(total_sched));
     run.set("preemption_bound", json!(bound));
+    run.set("preemption_bound_completed_in_every_scenario", json!(min_bound_completed));
     run.set("exhaustive", json!(complete));
     run.set("traces_validated_against_impl", json!(0));
     run.set("scenarios", json!(detail));
     run.set("rule_histories", json!("C11 only: plus explicit-state BFS over tower histories (C01 alphabets and resubmission of an appointment in every lifecycle state) with the panic / restart-failure detectors"));
-    run.set("rule", json!("stateless model checking of the real tower under a controlled scheduler: every lock acquisition, condition wait/notify and atomic load/store of gatekeeper, watcher, responder, carrier, chain monitor and internal API is a scheduling point; all schedules with at most `preemption_bound` pre-emptions of each scenario's operations are executed (depth-first over choice sequences by re-execution); states = distinct observable outcomes (replies, tables, memory, RPC multiset), transitions = schedules executed; every schedule is an implementation trace"));
+    run.set("rule", json!("stateless model checking of the real tower under a controlled scheduler: every lock acquisition, condition wait/notify and atomic load/store of gatekeeper, watcher, responder, carrier, chain monitor and internal API is a scheduling point; all schedules with at most `preemption_bound` pre-emptions of each scenario's operations are executed, by re-execution of choice sequences in order of their number of pre-emptions (iterative context bounding: all schedules with 0 pre-emptions, then 1, ...; `preemption_bound_completed` is what the wall budget allowed per scenario); states = distinct observable outcomes (replies, tables, memory, RPC multiset), transitions = schedules executed; every schedule is an implementation trace"));
     run.assume("sequential consistency for the two AtomicU32 heights; no unsynchronised shared state (the crates contain no unsafe code and no statics)");
     run.assume("the simulated bitcoind is only reached under the carrier lock / from the polling thread");
     run.finish()
